@@ -212,7 +212,8 @@ class Token:
                 expr = sanitize_variable_names(self.token, aliases, aliases)
                 return set(
                     filter(
-                        lambda variable: variable.split(".", 1)[0] not in TRANSFORMS,
+                        lambda variable: variable in aliases.values()
+                        or variable.split(".", 1)[0] not in TRANSFORMS,
                         get_expression_variables(expr, {}, aliases),
                     )
                 )
